@@ -47,6 +47,7 @@ var registry = map[string]*PropDef{
 	"C03": {
 		Harnesses: []HarnessDef{
 			{Pkg: "cmd", Func: "VP_C03_Step", Quick: map[string]int{"prefixes": 4}, Thorough: map[string]int{"prefixes": 4}, Share: 1.00},
+			{Pkg: "cmd", Func: "VP_C03_Two", Quick: map[string]int{"prefixes": 3, "prefixmin": 2, "symids": 0}, Thorough: map[string]int{"prefixes": 4, "prefixmin": 0, "symids": 0}, Share: 1.00},
 		},
 		QuickBudget: 10 * time.Minute, ThoroughBudget: 45 * time.Minute, Assumptions: commonAssumptions,
 	},
@@ -87,6 +88,7 @@ var registry = map[string]*PropDef{
 	},
 	"C08": {
 		Harnesses: []HarnessDef{
+			{Pkg: "cmd", Func: "VP_C08_Positions", Quick: map[string]int{"commits": 11}, Thorough: map[string]int{"commits": 13}, Share: 1.00},
 			{Pkg: "cmd", Func: "VP_C08_Reset", Quick: map[string]int{"complen": 1, "junk": 2}, Thorough: map[string]int{"complen": 1, "junk": 3}, Share: 1.00},
 		},
 		QuickBudget: 10 * time.Minute, ThoroughBudget: 45 * time.Minute, Assumptions: commonAssumptions,
@@ -132,6 +134,7 @@ var registry = map[string]*PropDef{
 	},
 	"C14": {
 		Harnesses: []HarnessDef{
+			{Pkg: "cmd", Func: "VP_C14_Walk", Quick: map[string]int{"chain": 20}, Thorough: map[string]int{"chain": 50}, Share: 1.00},
 			{Pkg: "cmd", Func: "VP_C14_Log", Quick: map[string]int{"commits": 4}, Thorough: map[string]int{"commits": 6}, Share: 1.00},
 		},
 		QuickBudget: 10 * time.Minute, ThoroughBudget: 45 * time.Minute, Assumptions: commonAssumptions,
